@@ -223,8 +223,8 @@ theorem verify_batch_update_bounded_check :
 
 /-! ## Regenerated-from-source bridge (tools/rs2lean_bt4.py, `TF/Gen/MmrPeaksLoops.lean`)
 
-`calculate_new_peaks_from_append` and `calculate_new_peaks_from_leaf_mutation` are regenerated from the text of
-`shared_basic.rs` on every run with the digest type opaque (`D`), `Tip5::hash_pair` the parameter `H` and `d0` the value
+`calculate_new_peaks_from_append`, `calculate_new_peaks_from_leaf_mutation` (`shared_basic.rs`) and `bag_peaks` (`shared.rs`) are
+regenerated from the source text on every run with the digest type opaque (`D`), `Tip5::hash_pair` the parameter `H` and `d0` the value
 read after a panic (the `_ok` twin is false there).  `outcome ok v = if ok then v else none` turns the pair
 (`_ok` flag, value) into the hand model's convention (`none` = panic).  Proofs: `TF/Proofs/GenBridgeMmrPeaks.lean`. -/
 section GenBridge
@@ -294,6 +294,25 @@ theorem gen_peaks_transfer (d0 : D) (f : Nat → D) (n : Nat) (hn : n + 1 < 2 ^ 
       obtain ⟨h1, h2⟩ := outcome_eq_some hg
       exact ⟨h1, by rw [h2, hm]⟩
 example : (9223372036854775807 : Nat) + 1 < 2 ^ 64 := by decide
+
+/-- regenerated `shared::bag_peaks` (two `next_back()` with early `return`, then `peaks.rev().fold(accumulator, |acc, &peak|
+    Tip5::hash_pair(peak, acc))`; `hash0` = `Tip5::hash(&0u128)`) = the hand model — every hash function, every list of
+    peaks, opaque digests; no check of the `_ok` twin can fail -/
+theorem gen_bag_peaks_eq_model (d0 z : D) (ps : List D) :
+    TF.Gen.Loops.mmr_bag_peaks H d0 z ps = bag_peaks H z ps ∧ TF.Gen.Loops.mmr_bag_peaks_ok H d0 z ps = true :=
+  gen_bag_peaks_eq H d0 z ps
+example : TF.Gen.Loops.mmr_bag_peaks (fun a b : Nat => a * 10 + b) 7 0 [1, 2, 3, 4] = 1 * 10 + (2 * 10 + (3 * 10 + 4)) := by
+  decide
+
+/-- **transfer** of `bag_peaks_spec`: the code as it is in the source now computes the documented bag — `z` for no peak,
+    the peak itself for one peak, `H p₀ (H p₁ (… (H pₖ₋₂ pₖ₋₁)))` otherwise (a dropped `.rev()` or swapped arguments of
+    `hash_pair` break this for non-commutative `H`) -/
+theorem gen_bag_peaks_transfer (d0 z : D) (ps : List D) :
+    TF.Gen.Loops.mmr_bag_peaks H d0 z ps = bagSpec H z ps := by
+  rw [(gen_bag_peaks_eq_model H d0 z ps).1, bag_peaks_spec]
+example : TF.Gen.Loops.mmr_bag_peaks (fun a b : Nat => a * 10 + b) 7 0 [] = 0 ∧
+    TF.Gen.Loops.mmr_bag_peaks (fun a b : Nat => a * 10 + b) 7 0 [5] = 5 ∧
+    bagSpec (fun a b : Nat => a * 10 + b) 0 [1, 2, 3, 4] = 64 := by decide
 
 end GenBridge
 
